@@ -4,6 +4,7 @@ import (
 	"fmt"
 	"strconv"
 	"strings"
+	"unicode/utf8"
 
 	"verif/internal/h"
 )
@@ -19,7 +20,14 @@ var jsonStrPool = []string{"", "plain", "with space", "quote\"inside", "back\\sl
 func jsonQuote(r *h.Rng, s string) string {
 	var b strings.Builder
 	b.WriteByte('"')
-	for _, c := range s {
+	for i := 0; i < len(s); {
+		c, w := utf8.DecodeRuneInString(s[i:])
+		if c == utf8.RuneError && w == 1 {
+			b.WriteByte(s[i]) // invalid byte: passed through raw
+			i++
+			continue
+		}
+		i += w
 		switch {
 		case c == '"':
 			b.WriteString(`\"`)
